@@ -129,6 +129,9 @@ def run(chk):
             if r["run_rc"] == -9:
                 chk.violation("hang", "multi-process run did not finish within 90 s (deadlock): " + desc, dict(job=job))
                 continue
+            if not st.get("ok") and st.get("exc") == "harness":
+                chk.machinery("multi-process run: harness failure: %s (%s)" % (st.get("msg"), desc))
+                continue
             if not st.get("ok"):
                 chk.violation("run-exception:%s" % st.get("exc"), "multi-process run terminated by %s (%s): %s"
                               % (st.get("exc"), st.get("msg"), desc), dict(job=job, tb=st.get("tb")))
